@@ -117,3 +117,78 @@ class Reflector:
         for name, val in vars(x).items():
             out.fields[name] = self.reflect(val)
         return out
+
+
+def loop_free_library_functions(modules):
+    """(module, name, parameter names, number of parameters without default) of every function of the given bundled modules that
+    is written in Checkerlang, contains no loop or comprehension, and calls only natives or other such functions (static scan of
+    the node trees the real parser built; recursion excluded)"""
+    I = native_session(tuple(modules))
+    N, F = sys.modules["ckl.nodes"], sys.modules["ckl.functions"]
+    loops = tuple(getattr(N, c) for c in dir(N) if c.startswith("Node") and ("For" in c or "While" in c or "Comprehension" in c))
+
+    def walk(node, seen):
+        if id(node) in seen:
+            return
+        seen.add(id(node))
+        yield node
+        for v in vars(node).values():
+            for x in (v if isinstance(v, (list, tuple)) else [v]):
+                for y in (x if isinstance(x, (list, tuple)) else [x]):
+                    if type(y).__module__ == "ckl.nodes":
+                        yield from walk(y, seen)
+    funcs = {}
+    for m in modules:
+        for name, v in I.environment.get(m).value.items():
+            if isinstance(v, F.FuncLambda):
+                funcs[(m, name)] = v
+    by_id = {id(f): k for k, f in funcs.items()}
+    info = {}
+    for key, f in funcs.items():
+        nodes = list(walk(f.body, set()))
+        for dv in f.defValues:
+            if dv is not None:
+                nodes += list(walk(dv, set()))
+        callees = {n.func.value for n in nodes if isinstance(n, N.NodeFuncall) and isinstance(n.func, N.NodeIdentifier)}
+        info[key] = (any(isinstance(n, loops) for n in nodes), callees, f)
+    ok = {}
+
+    def good(key, stack=()):
+        if key in ok:
+            return ok[key]
+        if key in stack:
+            return False
+        has_loop, callees, f = info[key]
+        res = not has_loop
+        for c in sorted(callees):
+            if not res:
+                break
+            try:
+                v = f.lexicalEnv.get(c)
+            except Exception:
+                continue
+            if isinstance(v, F.FuncLambda):
+                k2 = by_id.get(id(v))
+                res = k2 is not None and good(k2, stack + (key,))
+        ok[key] = res
+        return res
+    def closure(key, acc):
+        for c in info[key][1]:
+            if c in acc:
+                continue
+            acc.add(c)
+            try:
+                v = info[key][2].lexicalEnv.get(c)
+            except Exception:
+                continue
+            k2 = by_id.get(id(v))
+            if k2 is not None:
+                closure(k2, acc)
+        return acc
+    out = []
+    for (m, name), f in sorted(funcs.items()):
+        if good((m, name)):
+            names = list(f.argNames)
+            required = sum(1 for d in f.defValues if d is None)
+            out.append((m, name, names, required, sorted(closure((m, name), set()))))
+    return out
